@@ -583,3 +583,7 @@ where
         false
     }
 }
+
+#[cfg(slawlor_ractor_verif)]
+#[path = "/verif/hooks/factory_routing.rs"]
+pub mod verif_probe;
